@@ -113,6 +113,11 @@ def Phase.isPf : Phase → Prop
   | .pf _ => True
   | _ => False
 
+/-- names that do not occur on the stack above its second entry; `frameset`s nest in the frameset phase only -/
+def bhNames : Phase → List String
+  | .pf _ => ["html", "body", "head"]
+  | _ => ["html", "body", "head", "frameset"]
+
 /-- the element children of `r` -/
 def rootElems (d : Dom) (r : Id) : List Id := (d.childrenOf r).filter d.isElement
 
@@ -179,7 +184,8 @@ def Fits (d : Dom) (head : Option Id) (m : Mode) (up : List Id) (ph : Phase) : P
 def FitsM (s : State) (up : List Id) (ph : Phase) : Prop :=
   match s.mode with
   | .text => ∃ om up0 x, s.origMode = some om ∧ up = up0 ++ [x] ∧ om ≠ .text ∧ om ≠ .inTableText ∧
-      Fits s.dom s.headElem om up0 ph ∧ htmlIn (nm s.dom x) ["table", "tbody", "tfoot", "thead", "tr", "template"] = false
+      Fits s.dom s.headElem om up0 ph ∧ htmlIn (nm s.dom x) ["table", "tbody", "tfoot", "thead", "tr", "template"] = false ∧
+      (nm s.dom x).ns = nsHtml
   | .inTableText => ∃ om, s.origMode = some om ∧ (om = .inTable ∨ om = .inTableBody ∨ om = .inRow) ∧
       Fits s.dom s.headElem om up ph
   | m => Fits s.dom s.headElem m up ph
